@@ -90,6 +90,11 @@ func drawC07(rt *rapid.T, tier string) C07Scenario {
 		switch rapid.IntRange(0, 29).Draw(rt, "size_class") {
 		case 0:
 			sc.Records, sc.FreeRunning = 70000+rapid.IntRange(0, 30000).Draw(rt, "big"), true
+			if sc.BatchSize < 1000 {
+				// every batch reserves room for 2 x 100000 pairs: 100000 batches of one record would take the
+				// better part of an hour (and trip the watchdog), which is volume, not exploration
+				sc.BatchSize = 1000
+			}
 		case 1, 2, 3:
 			sc.Records = rapid.IntRange(400, 3000).Draw(rt, "mid")
 		}
